@@ -6,6 +6,7 @@ import (
 	"context"
 	"encoding/json"
 	"fmt"
+	"github.com/BurntSushi/toml"
 	"math/rand"
 	"net"
 	"os"
@@ -240,6 +241,18 @@ func cfgEqual(a, b config.Network) bool {
 	return reflect.DeepEqual(a, b)
 }
 
+func mapsEqual(a, b map[string]string) bool {
+	if len(a) != len(b) {
+		return false
+	}
+	for k, v := range a {
+		if w, ok := b[k]; !ok || w != v {
+			return false
+		}
+	}
+	return true
+}
+
 func TestVerifC16(t *testing.T) {
 	rep := verifrep.Open()
 	defer rep.Close()
@@ -299,6 +312,15 @@ func TestVerifC16(t *testing.T) {
 				got, err2 := config.FromString(body)
 				if grev != fmt.Sprint(rev+1) {
 					viol("revision-not-incremented", fmt.Sprintf("accepted update at revision %d, GET /config now reports %q", rev, grev))
+				}
+				// the ban list is judged on the raw documents (config.FromString is the code under
+				// test: a parser that hands out a shared map would agree with itself)
+				var postedRaw, servedRaw struct{ Banned map[string]string }
+				toml.Decode(b.Text, &postedRaw)
+				toml.Decode(body, &servedRaw)
+				live := ircServer.VerifView().Config.Banned
+				if err == nil && (!mapsEqual(postedRaw.Banned, servedRaw.Banned) || !mapsEqual(postedRaw.Banned, live)) {
+					viol("config-not-in-force:bans", fmt.Sprintf("accepted update lists the bans %v, GET /config serves %v, the state machine enforces %v", postedRaw.Banned, servedRaw.Banned, live))
 				}
 				if err == nil && (err2 != nil || !cfgEqual(want, got)) {
 					viol("config-not-in-force", fmt.Sprintf("GET /config after an accepted update does not decode to the posted configuration (err %v):\nposted %+v\nserved %+v", err2, want, got))
